@@ -279,8 +279,36 @@ def run(chk):
         if len(set(o for _, o in lst)) > 1:
             problems.append(("toy", list(lines), "file vs -e", "the same lines give %r" % (lst,)))
 
+    # direct statement of the property on the miniature programs too: the library harness (Context::interpret,
+    # no prelude) decides whether every input succeeds; the binary's exit status must say the same
+    toy_lib = S.run_sessions(binary_h, [([("F", ft)] if ft is not None else []) +
+                                        ([("F", "\n".join(ex))] if ex else [])
+                                        for _, _, _, ft, ex in toy])
+    for n, (lines, kind, mode, ft, ex) in enumerate(toy):
+        items = toy_lib[n]
+        if not items or any(i == "PANIC" for i in items):
+            continue
+        all_ok = all(i.startswith("ok") for i in items)
+        rc = toy_res[n][0]
+        if all_ok != (rc == 0):
+            problems.append(("toy2", n, mode,
+                             "inputs %s in the library (%s) but the binary's exit status is %d" % (
+                                 "all succeed" if all_ok else "do not all succeed",
+                                 " ; ".join(i.split("|")[0] + ("" if i.startswith("ok") else ":" + i.split("|")[1])
+                                            for i in items), rc)))
+
     found = 0
     for p in problems[:3]:
+        if p[0] == "toy2":
+            n = p[1]
+            chk.violation({
+                "kind": "the numbat binary does not report success/failure faithfully",
+                "file": toy[n][3], "exprs": toy[n][4], "prelude": False, "mode": p[2], "detail": p[3],
+                "binary": toy_obs[n],
+                "replay": "write `file` to f.nbt and run: numbat -N --no-config f.nbt -e '<expr>' ... ; echo $?",
+            })
+            found += 1
+            continue
         if p[0] == "std":
             lines = std[p[1]][0]
             prelude = True
